@@ -103,6 +103,8 @@ class Recorder:
         self.first_fail_t = None
         self.best_fail = None
         self.shrink_budget = None
+        self.deadline = None
+        self.budget_exhausted = False
         self.per_sub = Counter()
 
     # ---- case lifecycle -------------------------------------------------------------------
@@ -110,6 +112,9 @@ class Recorder:
         if self.first_fail_t is not None and self.shrink_budget is not None:
             if time.monotonic() - self.first_fail_t > self.shrink_budget:
                 raise StopShrink()
+        if self.deadline is not None and time.monotonic() > self.deadline:
+            self.budget_exhausted = True
+            raise StopShrink()
         self.evaluations += 1
         self.per_sub[sub] += 1
         self.cur_case = case
@@ -191,7 +196,7 @@ class Recorder:
         return {
             "evaluations": self.evaluations, "nontrivial": self.nontrivial, "by_class": self.by_class,
             "excluded": self.excluded, "ambiguous": self.ambiguous, "samples": self.samples,
-            "per_sub": self.per_sub,
+            "per_sub": self.per_sub, "budget_exhausted": self.budget_exhausted,
         }
 
     def merge(self, d):
@@ -201,6 +206,7 @@ class Recorder:
         self.excluded.update(d["excluded"])
         self.ambiguous.update(d["ambiguous"])
         self.per_sub.update(d["per_sub"])
+        self.budget_exhausted = self.budget_exhausted or d.get("budget_exhausted", False)
         for s in d["samples"]:
             same = sum(1 for t in self.samples if t["sub"] == s["sub"])
             if same < 3 and len(self.samples) < 24:
@@ -218,6 +224,8 @@ class Sub:
     quick_shards: int = 4
     machine: Optional[Callable] = None  # for stateful subs: (rec, tier) -> RuleBasedStateMachine subclass
     steps: int = 30
+    budget_quick: float = 120.0  # wall-clock cap per shard; running out means "explored less", never a violation
+    budget_thorough: float = 900.0
 
 
 @dataclass
@@ -279,6 +287,7 @@ def run_hypothesis(sub: Sub, tier, seed, n, rec: Recorder):
     rec.first_fail_t = None
     rec.best_fail = None
     rec.shrink_budget = 45 if tier == "quick" else 120
+    rec.deadline = time.monotonic() + (sub.budget_quick if tier == "quick" else sub.budget_thorough)
     try:
         if sub.machine is not None:
             from hypothesis.stateful import run_state_machine_as_test
@@ -302,4 +311,5 @@ def run_hypothesis(sub: Sub, tier, seed, n, rec: Recorder):
     finally:
         rec.shrink_budget = None
         rec.first_fail_t = None
+        rec.deadline = None
     return None
